@@ -7,6 +7,7 @@ with the operand widths in hand.
 import enum
 import math
 import random
+import zlib
 from decimal import Decimal
 
 from lib import monitors
@@ -241,6 +242,7 @@ def setup(ctx):
     ctx.M1 = M1 = monitors.NodeMonitor()
     M1.on_enter, M1.on_exit, M1.on_raise = W.enter, W.exit, W.raised
     F = functions.FUNCTIONS
+    ctx.F, ctx.rawF = F, dict(F)
     for n in NUM_BUILTINS:
         if n in F:
             F[n] = W.builtin(n, F[n])
@@ -252,6 +254,7 @@ def setup(ctx):
     ctx.count('table_entries_unknown_to_the_pinned_tree_judged_as_numeric_builtins', len(ctx.new_entries))
     if '__setitem_with_op__' in F:
         F['__setitem_with_op__'] = W.setitem_with_op(F['__setitem_with_op__'])
+    ctx.wrapF = dict(F)
 
 
 D = Decimal
@@ -463,11 +466,22 @@ def run_case(case, ctx):
     W.case = case
     W.stack = []
     before = W.judged
+    # one program in five runs against the function table as the repository built it (wrappers out for this call; the node monitor still judges every
+    # numeric node value): code that recognises its own builtins by identity takes other paths under wrappers
+    unwrapped = zlib.crc32(src.encode('utf-8', 'replace')) % 5 == 0
+    if unwrapped:
+        ctx.F.clear()
+        ctx.F.update(ctx.rawF)
+        ctx.count('programs_run_against_the_unwrapped_function_table(node monitor only)')
     try:
         ctx.P.eval(src, copy.deepcopy(names), None, 10 ** 5)
     except Exception as e:
         ctx.count('evals_raising')
         ctx.cov('exception_classes', type(e).__name__)
+    finally:
+        if unwrapped:
+            ctx.F.clear()
+            ctx.F.update(ctx.wrapF)
     if W.judged > before:
         ctx.nontriv(src + '\0' + repr(names))
         if ctx.counters['__s'] % 500 == 0:
